@@ -90,7 +90,7 @@ def _nonint_shape(A):
     return any(not isinstance(e, (int, np.integer)) for e in list(flat(A.input_shape)) + list(flat(A.output_shape)))
 
 
-def collect(rng, thorough, per_class, hist=None, known_ids=(), on_view=None):
+def collect(rng, thorough, per_class, hist=None, known_ids=(), on_view=None, instances=None, on_program=None):
     """Enumerate operators and views, trace and translate.
     -> (records, programs) ; programs: key -> dict(prog, field, tag, ok, pid, users).
     `on_view(rec, A, fn, shp, dt)` is called for every view whose map could be obtained (the numerical probes run
@@ -160,14 +160,25 @@ def collect(rng, thorough, per_class, hist=None, known_ids=(), on_view=None):
             rec["traced"] = how
             if how != "public":
                 count(f"trace-fallback:{cls}.{view}")
+            rec_insts = [] if instances is not None else None
             try:
-                prog = ir.translate(closed)
+                prog = ir.translate(closed, record=rec_insts, keep=on_program is not None)
             except ir.NotTranslatable as e:
                 rec.update(status="not-translatable", prim=e.prim, detail=str(e))
                 count(f"not-translatable:{e.prim}")
                 if on_view is not None:
                     on_view(rec, A, fn, shp, dt)
                 continue
+            if rec_insts:
+                # primitive instances of this program (deduplicated over the whole run) for the table validation stream
+                import jaxpr_table as tb
+
+                for inst in rec_insts:
+                    sig = tb.signature(inst)
+                    if sig not in instances:
+                        inst["user"] = f"{cls}.{view}"
+                        instances[sig] = inst
+                    instances[sig]["uses"] = instances[sig].get("uses", 0) + 1
             tag = ir.check(prog)
             key = (prog.key(), fld)
             ent = programs.get(key)
@@ -185,6 +196,10 @@ def collect(rng, thorough, per_class, hist=None, known_ids=(), on_view=None):
                     count(f"prim:{pn}", )
             if on_view is not None:
                 on_view(rec, A, fn, shp, dt)
+            if on_program is not None:
+                # fidelity of the translation: run the emitted IR with the real primitives against the operator itself
+                on_program(rec, prog, fn, shp, dt)
+                prog.exec = None
     jax.clear_caches()
     gc.collect()
     return records, programs
@@ -268,9 +283,9 @@ def emit(records, programs, nbuckets):
     return out, index
 
 
-def generate(rng, thorough, per_class, nbuckets, hist=None, known_ids=(), on_view=None):
+def generate(rng, thorough, per_class, nbuckets, hist=None, known_ids=(), on_view=None, instances=None, on_program=None):
     t0 = time.time()
-    records, programs = collect(rng, thorough, per_class, hist, known_ids, on_view)
+    records, programs = collect(rng, thorough, per_class, hist, known_ids, on_view, instances, on_program)
     # every class must contribute at least one translated forward program and one translated adjoint: a class whose
     # operators cannot be constructed / traced at all gets a failing obligation (never silently absent)
     have = {}
@@ -295,6 +310,9 @@ def generate(rng, thorough, per_class, nbuckets, hist=None, known_ids=(), on_vie
         "unique_programs": len(programs),
         "modules": len(mods),
         "max_eqns": max([len(e["prog"].eqns) for e in programs.values()] or [0]),
+        "unrolled_control_flow": sum(e["prog"].unrolled for e in programs.values()),
+        "inlined_calls": sum(e["prog"].inlined for e in programs.values()),
+        "folded_equations": sum(e["prog"].folded for e in programs.values()),
         "trace_s": round(t1 - t0, 1),
         "lean_s": round(time.time() - t1, 1),
         "all_built": ok,
